@@ -110,6 +110,9 @@ func (sr *schedRun) open() {
 }
 
 func (sr *schedRun) emit(line, got string) {
+	if os.Getenv("VERIF_SCHED_TRACE") != "" {
+		fmt.Fprintf(os.Stderr, "%s => %s\n", strings.ReplaceAll(line, "\t", " "), got)
+	}
 	sr.lines = append(sr.lines, line)
 	sr.impl = append(sr.impl, got)
 }
